@@ -1,10 +1,10 @@
 SPECIFICATION Spec
 CONSTANTS
   K = 60
-  KB = 24
+  KB = 16
   C2Pos = {3}
   C2Neg = {7}
-  KM = 24
+  KM = 12
   ScalPos = {0, 1, 2, 1000}
   ScalNeg = {1, 7}
 INVARIANTS EmitInv Laws
